@@ -51,10 +51,10 @@ func init() {
 }
 
 type armSpec struct {
-	fn      string
-	ch      string   // Conn.readTimeout / Conn.writeTimeout
-	ops     []string // blocking transport operations inside the window
-	errIdx  int      // index of the error result
+	fn     string
+	ch     string   // Conn.readTimeout / Conn.writeTimeout
+	ops    []string // blocking transport operations inside the window
+	errIdx int      // index of the error result
 }
 
 var armSpecs = []armSpec{
@@ -139,22 +139,53 @@ func armingRules(p *Program, r *Report, c09 bool, c10 bool) {
 func c10senders(p *Program, r *Report, rule string) {
 	allowed := map[string]string{"Conn.readFrameHeader": "readTimeout", "Conn.readFramePayload": "readTimeout", "Conn.writeFrame": "writeTimeout"}
 	n := 0
+	type sendSite struct {
+		fn *ssa.Function
+		in ssa.Instruction
+		ch ssa.Value
+	}
+	var sites []sendSite
+	// a send on a parameter of a helper that is not part of the reference tree is a send at each of its call sites
+	var lift func(fn *ssa.Function, in ssa.Instruction, ch ssa.Value, depth int)
+	lift = func(fn *ssa.Function, in ssa.Instruction, ch ssa.Value, depth int) {
+		if prm, ok := ch.(*ssa.Parameter); ok && !knownFuncs[p.rawName(fn)] && depth < 4 {
+			idx := -1
+			for i, x := range fn.Params {
+				if x == prm {
+					idx = i
+				}
+			}
+			for _, cs := range p.CallersOf(fn) {
+				if idx >= 0 && idx < len(cs.Instr.Common().Args) {
+					lift(cs.Fn, cs.Instr, cs.Instr.Common().Args[idx], depth+1)
+				}
+			}
+			return
+		}
+		sites = append(sites, sendSite{fn, in, ch})
+	}
 	for _, fn := range p.Funcs {
-		fname := p.FuncName(fn)
 		for _, b := range fn.Blocks {
 			for _, in := range b.Instrs {
-				var chans []ssa.Value
 				switch x := in.(type) {
 				case *ssa.Send:
-					chans = append(chans, x.Chan)
+					lift(fn, in, x.Chan, 0)
 				case *ssa.Select:
 					for _, st := range x.States {
 						if st.Dir == types.SendOnly {
-							chans = append(chans, st.Chan)
+							lift(fn, in, st.Chan, 0)
 						}
 					}
 				}
-				for _, ch := range chans {
+			}
+		}
+	}
+	for _, s := range sites {
+		fn, in := s.fn, s.in
+		fname := p.FuncName(fn)
+		{
+			{
+				for _, ch := range []ssa.Value{s.ch} {
 					for _, name := range []string{"readTimeout", "writeTimeout"} {
 						if f := p.FieldOpt("Conn." + name); f != nil && derivesFromField(ch, f) {
 							n++
@@ -288,7 +319,7 @@ func cRwc(p *Program, r *Report, rule string) {
 	r.Floor(rule, 3)
 	// in closeTransport the only method invoked on it is Close
 	if fn := p.FuncOpt("Conn.closeTransport"); fn != nil {
-		for _, b := range fn.Blocks {
+		for _, b := range p.blocksOf(fn) {
 			for _, in := range b.Instrs {
 				if ci, ok := in.(ssa.CallInstruction); ok && ci.Common().IsInvoke() && derivesFromField(ci.Common().Value, f) {
 					r.Check(rule, "Conn.closeTransport", "rwc."+ci.Common().Method.Name(), p.InstrPos(in), ci.Common().Method.Name() == "Close", "closeTransport only calls rwc.Close()", ci.Common().Method.Name())
@@ -393,10 +424,10 @@ func c09ctx(p *Program, r *Report, rule string) {
 // escape cases of blocking selects and bare channel operations.
 func c09escape(p *Program, r *Report, rule string) {
 	frozen := map[string]string{
-		"mu.forceLock|send":      "its holder is inside an armed window or a bounded section; used only on teardown after the transport was closed",
-		"NetConn|recv":           "drain of a timer channel, reachable only if Stop reports a fired timer (never for AfterFunc timers)",
-		"xsync.Go$1|send":        "buffered channel of capacity 1, single send",
-		"xsync.Go$1$1|select":    "non-blocking",
+		"mu.forceLock|send":   "its holder is inside an armed window or a bounded section; used only on teardown after the transport was closed",
+		"NetConn|recv":        "drain of a timer channel, reachable only if Stop reports a fired timer (never for AfterFunc timers)",
+		"xsync.Go$1|send":     "buffered channel of capacity 1, single send",
+		"xsync.Go$1$1|select": "non-blocking",
 	}
 	n := 0
 	for _, fn := range p.Funcs {
@@ -530,8 +561,12 @@ func c09cancel(p *Program, r *Report, rule string) {
 		// bindings are addresses of captured variables; the cancel variable must have been stored the WithCancel cancel
 		okCancel := false
 		for _, e := range pa.Events {
-			if e.Kind == "store" && strings.Contains(e.AddrK, "cancel") && e.Val.Key() == cancelK {
-				okCancel = true
+			if e.Kind == "store" && e.Val.Key() == cancelK {
+				for _, b := range cl.Bind {
+					if ad, isAd := b.(*Addr); isAd && ad.K == e.AddrK {
+						okCancel = true
+					}
+				}
 			}
 		}
 		if !okCancel {
@@ -735,7 +770,10 @@ func c10loop(p *Program, r *Report, rule string) {
 
 func c10child(p *Program, r *Report, rule string) {
 	// context flow: which context reaches the arming functions
-	for _, s := range []struct{ fn, callee, want string; idx int }{
+	for _, s := range []struct {
+		fn, callee, want string
+		idx              int
+	}{
 		{"Conn.readLoop", "Conn.readFrameHeader", "param:ctx", 1},
 		{"Conn.readLoop", "Conn.handleControl", "param:ctx", 1},
 		{"Conn.reader", "Conn.readLoop", "param:ctx", 1},
@@ -803,7 +841,7 @@ func c10child(p *Program, r *Report, rule string) {
 		isTO := func(ch ssa.Value) bool {
 			return derivesFromField(ch, p.FieldOpt("Conn.readTimeout")) || derivesFromField(ch, p.FieldOpt("Conn.writeTimeout"))
 		}
-		for _, b := range fn.Blocks {
+		for _, b := range p.blocksOf(fn) {
 			for _, in := range b.Instrs {
 				if sel, ok := in.(*ssa.Select); ok {
 					for _, st := range sel.States {
@@ -826,11 +864,11 @@ func c10child(p *Program, r *Report, rule string) {
 func runC20(p *Program, r *Report) {
 	// inventory
 	frozen := map[string]string{
-		"newConn|go Conn.timeoutLoop":     "joined through timeoutLoopDone",
+		"newConn|go Conn.timeoutLoop":        "joined through timeoutLoopDone",
 		"Conn.CloseRead|go Conn.CloseRead$1": "joined through closeReadDone",
-		"NetConn|time.AfterFunc":          "timer, stopped in netConn.Close; callback is non-blocking",
-		"dial$1|time.AfterFunc":           "3 s timer on the error path, Stop deferred",
-		"xsync.Go|go xsync.Go$1":          "xsync.Go has no library caller",
+		"NetConn|time.AfterFunc":             "timer, stopped in netConn.Close; callback is non-blocking",
+		"dial$1|time.AfterFunc":              "3 s timer on the error path, Stop deferred",
+		"xsync.Go|go xsync.Go$1":             "xsync.Go has no library caller",
 	}
 	n := 0
 	wantCount := map[string]int{"newConn|go Conn.timeoutLoop": 1, "Conn.CloseRead|go Conn.CloseRead$1": 1, "NetConn|time.AfterFunc": 2, "dial$1|time.AfterFunc": 1, "xsync.Go|go xsync.Go$1": 1}
@@ -841,19 +879,22 @@ func runC20(p *Program, r *Report) {
 		}
 	}()
 	for _, cs := range p.CallSites() {
-		fname := p.FuncName(cs.Fn)
-		key := ""
+		what := ""
 		if cs.Kind == "go" {
-			key = fname + "|go " + cs.Name
+			what = "go " + cs.Name
 		} else if cs.Name == "time.AfterFunc" {
-			key = fname + "|time.AfterFunc"
+			what = "time.AfterFunc"
 		} else {
 			continue
 		}
-		n++
-		gotCount[key]++
-		reason, ok := frozen[key]
-		r.Check("C20.inventory", fname, strings.SplitN(key, "|", 2)[1], p.InstrPos(cs.Instr), ok, "every goroutine or timer the library starts is on the frozen list with a join obligation", firstNonEmpty(reason, "unknown spawn without a join obligation"))
+		// a spawn inside a helper that is not part of the reference tree counts for the reference functions that reach it
+		for _, fname := range p.ownersOf(cs.Fn) {
+			key := fname + "|" + what
+			n++
+			gotCount[key]++
+			reason, ok := frozen[key]
+			r.Check("C20.inventory", fname, what, p.InstrPos(cs.Instr), ok, "every goroutine or timer the library starts is on the frozen list with a join obligation", firstNonEmpty(reason, "unknown spawn without a join obligation"))
+		}
 	}
 	r.Floor("C20.inventory", 5)
 	if fn := p.FuncOpt("xsync.Go"); fn != nil {
